@@ -147,7 +147,7 @@ def c01(ctx):
                            "distinct script; lengths 0..130 exhaustively x byte patterns {uniform, >=0x80, 00, ff, counting, "
                            "one-hot}, larger lengths, keys {zero, reference, ones, one-hot, high-bit, random}, all widths. "
                            "Oracle: Spec.HH extracted from Coq (pinned by the published vectors).")
-    ok = proof_gate(ctx, "theories/Properties/C01.v", ["C01_portable_is_highwayhash", "C01_pure_function"])
+    ok = proof_gate(ctx, "theories/Properties/C01.v", ["C01_portable_is_highwayhash", "C01_run", "C01_pure_function"])
     ensure_model(ctx)
     rng = Rng(ctx.seed).fork("C01")
     cases = []   # (width, key, data)
@@ -222,7 +222,7 @@ def c05(ctx):
                            "io::copy) and to register 1 by the one-shot helper, same backend and key, then the digests of both; "
                            "exhaustive two-step skeleton: buffer fill 0..31 x next chunk length 0..97, all four x86 hasher types, "
                            "plus random k-partitions with empty chunks; non-trivial = distinct script with >= 1 non-empty chunk")
-    ok = proof_gate(ctx, "theories/Properties/C05.v", ["C05_streaming_invariance"])
+    ok = proof_gate(ctx, "theories/Properties/C05.v", ["C05_streaming_invariance", "C05_from_any_state", "C05_entry_points"])
     ensure_model(ctx)
     rng = Rng(ctx.seed).fork("C05")
     hists = []
@@ -280,6 +280,853 @@ def c05(ctx):
     proof_verdict(ctx, ok)
 
 
+
+# ---------------------------------------------------------------------------------------------
+def feed_ops_for(impl):
+    return G.FEED_OPS_STD if impl.info.get("std") == "1" else G.FEED_OPS_NOSTD
+
+
+def all_equal(xs):
+    return all(x == xs[0] for x in xs)
+
+
+def lines_of(il, kinds):
+    return [l for l in il if l.split(" ", 1)[0] in kinds]
+
+
+def multi_dynamic(ctx, names, make_hists, oracle, keep, what, corpus_pid=None):
+    """Run the same generator/oracle over several build configurations."""
+    for name in names:
+        impl = get_impl(ctx, name)
+        hists = make_hists(impl)
+        if corpus_pid:
+            hists = corpus_hists(corpus_pid) + hists
+        fails, mism, _ = run_dynamic(ctx, impl, hists, oracle, keep)
+        report(ctx, impl, fails, mism, oracle, keep, what)
+        if name not in C.PERSISTENT:
+            impl.cleanup()
+
+
+QUICK_CONFIGS = ("dev", "release", "release-avx2", "release-nostd-sse41")
+ALL_CONFIGS = tuple(C.CONFIGS.keys())
+
+
+# C02  SSE / AVX / dispatcher = portable, in every build configuration
+def c02(ctx):
+    ctx.nontrivial_rule = ("one history = the same key and chunk list fed to PortableHash, SseHash, AvxHash, HighwayHasher and a "
+                           "HighwayBuildHasher-built hasher, digests of all widths (via clones); oracle: every digest equals the "
+                           "portable one of the REAL code; lengths 0..130 + larger, high-bit-heavy bytes, boundary keys; run in "
+                           "several build configurations (quick: 4, thorough: all 20); non-trivial = distinct script")
+    ok = proof_gate(ctx, "theories/Properties/C02.v",
+                    ["C02_x86_backends_equal_portable", "C02_config_independent", "C02_safe_constructors"])
+    ensure_model(ctx)
+    seed_rng = Rng(ctx.seed).fork("C02")
+
+    def make(impl):
+        rng = seed_rng.fork(impl.name)
+        ops = feed_ops_for(impl)
+        hists = []
+        lens = list(G.LENS_SMALL) + G.LENS_MED + ([4097, 65537] if ctx.tier == "thorough" else [4097])
+        cases = [(n, m) for n in lens for m in (0, 1)] + [(rng.below(400), rng.below(5)) for _ in range(150 if ctx.tier == "quick" else 6000)]
+        for hid, (n, mode) in enumerate(cases):
+            key = G.rand_key(rng)
+            d = rng.bytes(n, mode)
+            chunks = [d] if hid % 3 == 0 else G.partition(rng, d, 2 + rng.below(5))
+            lines = []
+            for r, b in enumerate(("P", "S", "A", "D", "B")):
+                lines.append(ctor(b, r, key))
+                lines += G.feed_lines(rng.fork("f%d" % hid), r, chunks, ops)
+                w = G.WIDTHS[(hid + r) % 3]
+                lines += ["clone %d %d" % (10 + r, r), "fin64 %d" % (10 + r), "clone %d %d" % (20 + r, r), "fin128 %d" % (20 + r), "fin256 %d" % r]
+            hists.append(History(hid, lines, {"len": n, "chunks": len(chunks)}))
+            ctx.count("len%%32=%d" % (n % 32))
+        # every remainder size x every 32-bit carry boundary of the length injection, per backend
+        hid = len(hists)
+        for n in range(1, 32):
+            for t in range(4):
+                key = G.boundary_key(rng)
+                d = rng.bytes(n, 1)
+                lines = []
+                for r, b in enumerate(("P", "S", "A", "D")):
+                    lines += [ctor(b, r, key), "append %d %s" % (r, hexs(d)), "fin%s %d" % (G.WIDTHS[(n + t) % 3], r)]
+                hists.append(History(hid, lines, {"len": n, "boundary": True}))
+                hid += 1
+        return hists
+
+    def oracle(h, il):
+        if has_panic(il):
+            return "panic"
+        ds = digests(il)
+        nb = sum(1 for l in h.lines if l.startswith(("new", "fnew")))
+        if nb < 2 or len(ds) % nb != 0 or not ds:
+            return None
+        per = len(ds) // nb
+        ref = ds[:per]
+        for i in range(1, nb):
+            if ds[i * per:(i + 1) * per] != ref:
+                return "backend #%d digests %s differ from PortableHash's %s" % (i, ds[i * per:(i + 1) * per], ref)
+        return None
+
+    keep = DIGEST + ("PANIC", "FAULT", "W", "NONE")
+    multi_dynamic(ctx, QUICK_CONFIGS if ctx.tier == "quick" else ALL_CONFIGS, make, oracle, keep,
+                  "SSE/AVX/dispatcher vs portable", "C02")
+    proof_verdict(ctx, ok)
+
+
+# C06  checkpoint / restore transparent at every cut, across backends, any number of hops
+def c06(ctx):
+    ctx.nontrivial_rule = ("one history = new on backend X0, append a prefix, then 1-4 hops (checkpoint, restore on backend Xi, "
+                           "append more, possibly in chunks), finalize; plus the uninterrupted PortableHash over all the bytes; "
+                           "oracle: equal digests; every cut 0..len for several lengths x all 16 (source, target) pairs, "
+                           "multi-hop chains, all widths; non-trivial = distinct script with a non-empty stream")
+    ok = proof_gate(ctx, "theories/Properties/C06.v", ["C06_checkpoint_transparent", "C06_hops_total", "C06_codec_roundtrip"])
+    ensure_model(ctx)
+    seed_rng = Rng(ctx.seed).fork("C06")
+
+    def make(impl):
+        rng = seed_rng.fork(impl.name)
+        ops = feed_ops_for(impl)
+        hists = []
+        hid = 0
+        lens = (33, 64, 70, 97) if ctx.tier == "quick" else (1, 31, 32, 33, 63, 64, 65, 70, 97, 130)
+        for n in lens:
+            d = rng.bytes(n, 1)
+            for cut in range(n + 1):
+                pairs = [(a, b) for a in X86_BACKENDS for b in X86_BACKENDS]
+                if ctx.tier == "quick":
+                    pairs = [pairs[(cut * 5 + k * 7 + n) % 16] for k in range(4)]
+                for (a, b) in pairs:
+                    key = G.rand_key(rng)
+                    w = G.WIDTHS[(cut + hid) % 3]
+                    lines = [ctor(a, 0, key), "append 0 %s" % hexs(d[:cut]),
+                             "%s 1 %s 0" % (restore_op(b), b), "append 1 %s" % hexs(d[cut:]), "fin%s 1" % w,
+                             "new 9 P %s" % G.keystr(key), "hash%s 9 %s" % (w, hexs(d))]
+                    hists.append(History(hid, lines, {"cut": cut, "pair": a + b, "nontrivial": n > 0}))
+                    ctx.count("cut%%32=%d" % (cut % 32))
+                    hid += 1
+        for i in range(300 if ctx.tier == "quick" else 20000):
+            key = G.rand_key(rng)
+            nh = 1 + rng.below(4)
+            w = rng.choice(G.WIDTHS)
+            b0 = rng.choice(X86_BACKENDS)
+            lines = [ctor(b0, 0, key)]
+            allb = b""
+            reg = 0
+            for hop in range(nh + 1):
+                d = G.rand_data(rng, rng.choice(G.CHUNK_LENS + [rng.below(200)]))
+                allb += d
+                lines += G.feed_lines(rng, reg, G.partition(rng, d, 1 + rng.below(3)), ops)
+                if hop < nh:
+                    b = rng.choice(X86_BACKENDS)
+                    lines.append("%s %d %s %d" % (restore_op(b), reg + 1, b, reg))
+                    reg += 1
+            lines += ["fin%s %d" % (w, reg), "new 99 P %s" % G.keystr(key), "hash%s 99 %s" % (w, hexs(allb))]
+            hists.append(History(hid, lines, {"hops": nh, "nontrivial": len(allb) > 0}))
+            ctx.count("hops=%d" % nh)
+            hid += 1
+        return hists
+
+    def oracle(h, il):
+        if has_panic(il):
+            return "panic"
+        ds = digests(il)
+        if sum(1 for l in h.lines if l.startswith(("fin", "hash"))) != 2:
+            return None
+        if len(ds) != 2 or ds[0] != ds[1]:
+            return "after checkpoint/restore hops the digest is %s but the uninterrupted hasher gives %s" % (ds[:1], ds[1:])
+        return None
+
+    keep = DIGEST + ("PANIC", "FAULT", "W", "NONE")
+    multi_dynamic(ctx, ("dev", "release"), make, oracle, keep, "checkpoint/restore transparency", "C06")
+    proof_verdict(ctx, ok)
+
+
+# C07  Default = zero-key hasher
+def c07(ctx):
+    ctx.nontrivial_rule = ("one history = T::default() and T::new(Key::default()) for T in {PortableHash, SseHash, AvxHash, "
+                           "HighwayHasher, HighwayBuildHasher}, same chunk list, digests at all widths and checkpoints; oracle: "
+                           "pairwise equal and equal to PortableHash::new(zero key); non-trivial = distinct script")
+    ok = proof_gate(ctx, "theories/Properties/C07.v", ["C07_default_is_zero_key", "C07_default_hashes_with_zero_key", "C07_default_total"])
+    ensure_model(ctx)
+    seed_rng = Rng(ctx.seed).fork("C07")
+
+    def make(impl):
+        rng = seed_rng.fork(impl.name)
+        ops = feed_ops_for(impl)
+        hists = []
+        for hid in range(260 if ctx.tier == "quick" else 8000):
+            n = hid if hid < 131 else rng.below(600)
+            d = G.rand_data(rng, n)
+            chunks = G.partition(rng, d, 1 + rng.below(4))
+            w = G.WIDTHS[hid % 3]
+            lines = []
+            for r, b in enumerate(("P", "S", "A", "D", "B")):
+                lines += ["default %d %s" % (2 * r, b), ctor(b, 2 * r + 1, G.ZERO_KEY)]
+                for rr in (2 * r, 2 * r + 1):
+                    lines += G.feed_lines(rng.fork("x%d" % hid), rr, chunks, ops) + ["ckpt %d" % rr, "fin%s %d" % (w, rr)]
+            hists.append(History(hid, lines, {"len": n}))
+        return hists
+
+    def oracle(h, il):
+        if has_panic(il):
+            return "panic"
+        ds = digests(il)
+        cks = lines_of(il, ("CK",))
+        if len(ds) < 2 or len(ds) != sum(1 for l in h.lines if l.startswith("fin")):
+            return None
+        if not all_equal(ds):
+            return "Default-constructed and zero-key hashers disagree: %s" % sorted(set(ds))
+        if cks and not all_equal(cks):
+            return "checkpoints of Default-constructed and zero-key hashers differ"
+        return None
+
+    keep = DIGEST + ("PANIC", "FAULT", "W", "NONE", "CK")
+    multi_dynamic(ctx, ("dev", "release"), make, oracle, keep, "Default vs new(Key::default())", "C07")
+    proof_verdict(ctx, ok)
+
+
+def random_history(rng, ops, nregs=3, maxops=14, blobs=True):
+    """a random well-formed history over the whole operation language (x86 backends)"""
+    lines = []
+    live = []
+    for step in range(1 + rng.below(maxops)):
+        if not live or rng.below(6) == 0:
+            r = rng.below(nregs + 2)
+            b = rng.choice(X86_BACKENDS + ("B",))
+            m = rng.below(4)
+            if m == 0 or b == "B":
+                lines.append(ctor(b, r, G.rand_key(rng)) if m else "default %d %s" % (r, b))
+            elif m == 1 and blobs:
+                blob, _ = G.rand_blob(rng)
+                lines.append("%s %d %s %s" % ("frestore" if b in ("S", "A") else "restore", r, b, blob.hex()))
+            elif m == 2 and live:
+                lines.append("%s %d %s %d" % (restore_op(b), r, b, rng.choice(live)))
+            else:
+                lines.append(ctor(b, r, G.rand_key(rng)))
+            if r not in live:
+                live.append(r)
+            continue
+        r = rng.choice(live)
+        m = rng.below(12)
+        if m < 5:
+            d = G.rand_data(rng, rng.choice(G.CHUNK_LENS + [rng.below(300)]))
+            lines.append("%s %d %s" % (rng.choice(ops), r, hexs(d)))
+        elif m == 5:
+            lines.append("finish %d" % r)
+        elif m == 6:
+            lines.append("ckpt %d" % r)
+        elif m == 7:
+            lines.append("debug %d" % r)
+        elif m == 8:
+            r2 = rng.below(nregs + 2)
+            lines.append("clone %d %d" % (r2, r))
+            if r2 not in live:
+                live.append(r2)
+        elif m == 9 and "write" in ops:
+            lines.append("flush %d" % r)
+        elif m == 10:
+            lines.append("fin%s %d" % (rng.choice(G.WIDTHS), r))
+            live.remove(r)
+        else:
+            lines.append("hash%s %d %s" % (rng.choice(G.WIDTHS), r, hexs(G.rand_data(rng, rng.below(100)))))
+            live.remove(r)
+    for r in live:
+        lines.append("fin%s %d" % (rng.choice(G.WIDTHS), r))
+    return lines
+
+
+# C08  no safe call sequence panics
+def c08(ctx):
+    ctx.nontrivial_rule = ("random histories over the whole safe API (construct, default, restore from arbitrary 164-byte blobs with the "
+                           "count field over all of u32's interesting values, restore-from-checkpoint, append/write/finish/clone/"
+                           "checkpoint/debug/flush/finalize/one-shot) on all x86 hasher types, run in the dev profile (overflow checks + "
+                           "debug assertions) and in release under catch_unwind; oracle: no PANIC line, no crash; plus #[no_panic] "
+                           "wrappers around every public operation linked in release+LTO; non-trivial = distinct script")
+    ok = proof_gate(ctx, "theories/Properties/C08.v", ["C08_no_panic"])
+    ensure_model(ctx)
+    seed_rng = Rng(ctx.seed).fork("C08")
+
+    def make(impl):
+        rng = seed_rng.fork("h")      # same histories in every profile
+        ops = feed_ops_for(impl)
+        hists = []
+        hid = 0
+        # targeted: every count field class x follow-ups, every backend
+        for cnt in [0, 1, 15, 16, 17, 28, 31, 32, 33, 63, 64, 255, 256, 1 << 16, 1 << 31, (1 << 32) - 1, (1 << 32) - 32]:
+            for b in X86_BACKENDS:
+                blob = rng.bytes(160, rng.below(2)) + cnt.to_bytes(4, "little")
+                op = "frestore" if b in ("S", "A") else "restore"
+                for follow in (["fin64 0"], ["append 0 -", "fin128 0"], ["append 0 %s" % hexs(rng.bytes(1 + rng.below(40), 1)), "fin256 0"],
+                               ["finish 0", "ckpt 0", "debug 0", "clone 1 0", "fin64 1", "fin256 0"]):
+                    hists.append(History(hid, ["%s 0 %s %s" % (op, b, blob.hex())] + follow, {"count": cnt}))
+                    ctx.count("count_class=%s" % ("<32" if cnt < 32 else "32" if cnt == 32 else ">32"))
+                    hid += 1
+        for i in range(1500 if ctx.tier == "quick" else 60000):
+            hists.append(History(hid, random_history(rng, ops), {}))
+            hid += 1
+        return hists
+
+    def oracle(h, il):
+        if has_panic(il):
+            return "a safe call sequence panicked (transcript ends with %s)" % il[-1:]
+        return None
+
+    keep = DIGEST + ("PANIC", "FAULT", "W", "NONE", "CK", "FIN", "TAG")
+    names = ("dev", "release") if ctx.tier == "quick" else ("dev", "release", "dev-avx2", "dev-nostd", "release-sse41-noavx2")
+    multi_dynamic(ctx, names, make, oracle, keep, "no-panic over safe call sequences", "C08")
+    # the link-time clause: #[no_panic] wrappers around every public operation (release, fat LTO)
+    t0 = __import__("time").time()
+    okl, out = nopanic_link()
+    ctx.extra["no_panic_link"] = {"ok": okl, "wall_s": round(__import__("time").time() - t0, 1),
+                                  "what": "release+LTO link of #[no_panic] wrappers around every public operation of PortableHash, SseHash, AvxHash, HighwayHasher"}
+    if not okl and not ctx.violations:
+        fn = re.findall(r"detected panic in function `([^`]+)`", out)
+        ctx.violation("the optimised build contains a panic path: #[no_panic] wrapper(s) %s no longer link\n%s" % (fn, out[-1500:]),
+                      None, no_input=True, tag="nopanic")
+    proof_verdict(ctx, ok)
+
+
+def nopanic_link():
+    d = os.path.join(C.ROOT, "harness-nopanic")
+    if not os.path.isdir(d):
+        return True, "harness-nopanic not present"
+    lock = os.path.join(d, "Cargo.lock")
+    if not os.path.exists(lock):
+        import shutil
+        shutil.copy(os.path.join(C.REPO, "Cargo.lock"), lock)
+    rc, out = C.sh(["cargo", "build", "--release", "--offline"], cwd=d,
+                   env={"RUSTFLAGS": "--cfg %s" % C.GUARD_CFG, "CARGO_TARGET_DIR": os.path.join(C.CACHE, "target-nopanic")}, timeout=1200)
+    return rc == 0, out
+
+
+# C09  memory safety and address independence
+def c09(ctx):
+    ctx.nontrivial_rule = ("one history = chunked hashing on an x86 hasher type with the data placed (a) ending exactly at a PROT_NONE "
+                           "page, (b) starting right after one, (c) at every start alignment 0..63 inside a region filled with 0x00/0xAA/0xFF, "
+                           "and the hasher object itself placed against a PROT_NONE page; oracle: no fault (the process survives) and the "
+                           "transcript equals that of the same script with heap placement; lengths 0..160 and chunkings; "
+                           "non-trivial = distinct script with a non-empty chunk")
+    ok = proof_gate(ctx, "theories/Properties/C09.v", ["C09_no_fault", "C09_address_independent"])
+    ensure_model(ctx)
+    seed_rng = Rng(ctx.seed).fork("C09")
+    plain = {}
+
+    def body(rng, b, n, w, chunks, hctor):
+        key = G.DOC_KEY
+        lines = [hctor % (b, G.keystr(key)) if "%s" in hctor else hctor]
+        for c in chunks:
+            lines.append("append 0 %s" % hexs(c))
+        lines += ["ckpt 0", "fin%s 0" % w]
+        return lines
+
+    def make_pairs(impl):
+        rng = seed_rng.fork(impl.name)
+        hists = []
+        hid = 0
+        lens = list(range(0, 161)) if ctx.tier == "thorough" else list(range(0, 72)) + [95, 96, 97, 127, 128, 129, 159, 160]
+        for n in lens:
+            d = rng.bytes(n, 1)
+            for b in X86_BACKENDS:
+                for k in range(3 if ctx.tier == "quick" else 6):
+                    w = G.WIDTHS[(n + k) % 3]
+                    chunks = [d] if k == 0 else G.partition(rng, d, 2 + rng.below(3))
+                    op = "fnew" if b in ("S", "A") else "new"
+                    core = ["%s 0 %s %s" % (op, b, G.keystr(G.DOC_KEY))] + ["append 0 %s" % hexs(c) for c in chunks] + ["ckpt 0", "fin%s 0" % w]
+                    placements = [["place end"], ["place start"], ["place mid %d %s" % ((n * 7 + k * 13) % 64, ("00", "aa", "ff")[k % 3])],
+                                  ["hplace end", "place end"], ["hplace start", "place mid %d ff" % ((n + k) % 64)]]
+                    if ctx.tier == "quick":
+                        placements = [placements[(n + k) % 5], placements[(n + k + 2) % 5]]
+                    base_id = hid
+                    hists.append(History(hid, core, {"plain": True, "nontrivial": n > 0}))
+                    hid += 1
+                    for pl in placements:
+                        hists.append(History(hid, pl + core, {"plain_id": base_id, "place": " ".join(pl), "nontrivial": n > 0}))
+                        ctx.count("place=%s" % pl[0])
+                        hid += 1
+        # every alignment 0..63 x remainder classes, AVX and SSE
+        for al in range(64):
+            for n in (31, 33, 47, 64, 65, 97):
+                d = rng.bytes(n, 0)
+                b = ("A", "S", "D")[al % 3]
+                op = "fnew" if b in ("S", "A") else "new"
+                core = ["%s 0 %s %s" % (op, b, G.keystr(G.REF_KEY)), "append 0 %s" % hexs(d[:n // 3]), "append 0 %s" % hexs(d[n // 3:]), "fin64 0"]
+                hists.append(History(hid, core, {"plain": True}))
+                hists.append(History(hid + 1, ["place mid %d 55" % al] + core, {"plain_id": hid, "place": "mid %d" % al}))
+                hid += 2
+        return hists
+
+    def oracle(h, il):
+        if il and il[-1].startswith("CRASH"):
+            return "the process died (%s): a read outside the slice / misaligned access" % il[-1]
+        if has_panic(il):
+            return "panic"
+        if h.meta.get("plain"):
+            plain[h.hid] = il
+            return None
+        ref = plain.get(h.meta.get("plain_id"))
+        if ref is None:
+            return None
+        if il != ref:
+            return "placement `%s` changes the transcript: %s vs %s" % (h.meta.get("place"), il[-2:], ref[-2:])
+        return None
+
+    keep = DIGEST + ("PANIC", "FAULT", "CK", "NONE")
+    for name in ("dev", "release"):
+        impl = get_impl(ctx, name)
+        plain.clear()
+        hists = make_pairs(impl)
+        ph = [h for h in hists if h.meta.get("plain")]
+        rest = [h for h in hists if not h.meta.get("plain")]
+        f1, m1, _ = run_dynamic(ctx, impl, ph, oracle, keep)
+        f2, m2, _ = run_dynamic(ctx, impl, rest, oracle, keep)
+
+        def oracle_single(h, il, _impl=impl):
+            if il and il[-1].startswith("CRASH"):
+                return "the process died (%s)" % il[-1]
+            core = [l for l in h.lines if not l.startswith(("place", "hplace"))]
+            if core == h.lines:
+                return None
+            tr, _ = C.impl_run(_impl, [History(1, core)])
+            if tr.get(1) != il:
+                return "placement changes the transcript"
+            return None
+        report(ctx, impl, f1 + f2, m1 + m2, oracle_single, keep, "memory safety / address independence")
+    memsig_check(ctx)
+    proof_verdict(ctx, ok)
+
+
+def memsig_check(ctx):
+    """gen/MemSig.v (regenerated from /repo) must equal the memory signature the model declares."""
+    try:
+        from . import facts
+    except ImportError:
+        return
+    facts.check_memsig(ctx)
+
+
+# C11  restore from arbitrary 164 bytes
+def c11(ctx):
+    ctx.nontrivial_rule = ("one history = one arbitrary 164-byte blob (random lanes incl. edge values, random buffer, count field over "
+                           "{0..31, 32, 33, 255, 256, 2^16, 2^31, 2^32-1, random}) restored on PortableHash, SseHash, AvxHash and "
+                           "HighwayHasher; on each: checkpoint, empty append, checkpoint, chunked feeding vs one feed, re-checkpoint hop, "
+                           "digests; oracle: all four backends print identical lines, the empty append changes nothing, chunked = "
+                           "one-shot, hop = no hop, no panic (dev and release); non-trivial = distinct blob+follow-up")
+    ok = proof_gate(ctx, "theories/Properties/C11.v",
+                    ["C11_restore_total", "C11_backend_independent", "C11_empty_append", "C11_recheckpoint"])
+    ensure_model(ctx)
+    seed_rng = Rng(ctx.seed).fork("C11")
+
+    def make(impl):
+        rng = seed_rng.fork("blobs")
+        hists = []
+        for hid in range(700 if ctx.tier == "quick" else 30000):
+            blob, cnt = G.rand_blob(rng)
+            if hid % 5 == 0:      # edge lanes
+                lanes = b"".join(rng.choice(G.EDGE_LANES).to_bytes(8, "little") for _ in range(16))
+                blob = lanes + blob[128:]
+            d = G.rand_data(rng, rng.choice(G.CHUNK_LENS + [rng.below(120)]))
+            cut = rng.below(len(d) + 1)
+            w = G.WIDTHS[hid % 3]
+            lines = []
+            for i, b in enumerate(X86_BACKENDS):
+                op = "frestore" if b in ("S", "A") else "restore"
+                r = 10 * i
+                lines += ["%s %d %s %s" % (op, r, b, blob.hex()), "ckpt %d" % r, "append %d -" % r, "ckpt %d" % r,
+                          "clone %d %d" % (r + 1, r), "clone %d %d" % (r + 2, r),
+                          "append %d %s" % (r, hexs(d[:cut])), "append %d %s" % (r, hexs(d[cut:])), "append %d %s" % (r + 1, hexs(d)),
+                          "%s %d %s %d" % (restore_op(X86_BACKENDS[(i + 1) % 4]), r + 3, X86_BACKENDS[(i + 1) % 4], r + 2),
+                          "append %d %s" % (r + 3, hexs(d)),
+                          "fin%s %d" % (w, r), "fin%s %d" % (w, r + 1), "fin%s %d" % (w, r + 3), "finish %d" % (r + 2)]
+            hists.append(History(hid, lines, {"count": cnt}))
+            ctx.count("count_class=%s" % ("<32" if cnt < 32 else "32" if cnt == 32 else ">32"))
+        return hists
+
+    def oracle(h, il):
+        if has_panic(il):
+            return "restoring / using an arbitrary checkpoint panicked"
+        nb = sum(1 for l in h.lines if l.startswith(("restore ", "frestore ")))
+        obs = lines_of(il, DIGEST + ("CK", "FIN"))
+        if nb < 1 or not obs or len(obs) % nb != 0 or len(obs) // nb != 6:
+            return None
+        per = len(obs) // nb
+        groups = [obs[i * per:(i + 1) * per] for i in range(nb)]
+        for g in groups[1:]:
+            if g != groups[0]:
+                return "backends disagree after restoring the same 164 bytes: %s vs %s" % (g, groups[0])
+        for g in groups:
+            ck1, ck2, d_chunked, d_one, d_hop, _fin = g
+            if ck1 != ck2:
+                return "an empty append changed the checkpoint of a restored hasher"
+            if not (d_chunked == d_one == d_hop):
+                return "restored hasher: chunked %s / one feed %s / via re-checkpoint hop %s" % (d_chunked, d_one, d_hop)
+        return None
+
+    keep = DIGEST + ("PANIC", "FAULT", "CK", "FIN", "NONE")
+    multi_dynamic(ctx, ("dev", "release"), make, oracle, keep, "restore from arbitrary bytes", "C11")
+    proof_verdict(ctx, ok)
+
+
+# C12  std adapters
+def c12(ctx):
+    ctx.nontrivial_rule = ("one history = interleaved write / write_all / io::copy / Hasher::write / flush / finish on one hasher, and after "
+                           "each finish a fresh same-key PortableHash one-shot over the bytes written so far; oracle: FIN = that D64, "
+                           "repeated finish identical, W n = buffer length, a HighwayBuildHasher-built hasher = HighwayHasher::new(key); "
+                           "hash_one of values of several types through two builder instances equals PortableHash over the recorded "
+                           "write stream; non-trivial = distinct script")
+    ok = proof_gate(ctx, "theories/Properties/C12.v",
+                    ["C12_finish", "C12_finish_does_not_consume", "C12_write", "C12_build_hasher"])
+    ensure_model(ctx)
+    seed_rng = Rng(ctx.seed).fork("C12")
+
+    def make(impl):
+        rng = seed_rng.fork("a")
+        hists = []
+        for hid in range(500 if ctx.tier == "quick" else 20000):
+            key = G.rand_key(rng)
+            b = rng.choice(X86_BACKENDS + ("B",))
+            lines = [ctor(b, 0, key)]
+            sofar = b""
+            aux = 1
+            for step in range(1 + rng.below(9)):
+                m = rng.below(7)
+                d = G.rand_data(rng, rng.choice(G.CHUNK_LENS + [rng.below(90)]))
+                if m < 4:
+                    lines.append("%s 0 %s" % (("write", "writeall", "iocopy", "hwrite")[m], hexs(d)))
+                    sofar += d
+                elif m == 4:
+                    lines.append("flush 0")
+                else:
+                    lines += ["finish 0", "finish 0", "new %d P %s" % (aux, G.keystr(key)), "hash64 %d %s" % (aux, hexs(sofar))]
+                    aux += 1
+            lines += ["finish 0", "new %d D %s" % (aux, G.keystr(key)), "hash64 %d %s" % (aux, hexs(sofar))]
+            hists.append(History(hid, lines, {"backend": b}))
+        return hists
+
+    def oracle(h, il):
+        if has_panic(il):
+            return "panic"
+        # walk script and transcript together (one output line per op)
+        outs = [l for l in il if not l.startswith("ALLOC")]
+        if len(outs) != len(h.lines):
+            return None
+        last_fin = []
+        for op, o in zip(h.lines, outs):
+            t = op.split()
+            if t[0] in ("write", "iocopy"):
+                n = 0 if t[2] == "-" else len(t[2]) // 2
+                if o != "W %d" % n:
+                    return "%s of %d bytes reported `%s`" % (t[0], n, o)
+            elif t[0] in ("writeall", "flush") and o != "OK":
+                return "%s failed: %s" % (t[0], o)
+            elif t[0] == "finish":
+                last_fin.append(o.split()[1])
+            elif t[0] == "hash64" and last_fin:
+                want = o.split()[1]
+                if any(f != want for f in last_fin):
+                    return "finish returned %s but the 64-bit hash of the bytes written so far is %s" % (last_fin, want)
+                last_fin = []
+        return None
+
+    keep = DIGEST + ("PANIC", "FAULT", "W", "FIN", "NONE", "OK", "WERR")
+    multi_dynamic(ctx, ("dev", "release"), make, oracle, keep, "std adapters", "C12")
+    hashone_check(ctx)
+    proof_verdict(ctx, ok)
+
+
+def hashone_check(ctx):
+    """BuildHasher::hash_one through two builder instances and two processes = PortableHash over the recorded stream."""
+    impl = get_impl(ctx, "release")
+    rng = Rng(ctx.seed).fork("hashone")
+    lines = []
+    n = 200 if ctx.tier == "quick" else 5000
+    for i in range(n):
+        key = G.rand_key(rng)
+        kind = rng.choice(["u8", "u32", "u64", "u128", "str", "bytes", "tuple", "vec16", "unit", "i64"])
+        val = rng.bytes(rng.below(40), rng.below(2))
+        lines.append("hashone %s %s %s" % (G.keystr(key), kind, hexs(val)))
+    text = "H 0\n" + "\n".join(lines) + "\n"
+    outs = []
+    for rep in range(2):
+        p = C._write_tmp(text)
+        rc, out = C.sh([impl.path, "run", p])
+        os.unlink(p)
+        outs.append([l for l in out.splitlines() if l.startswith("HONE")])
+    if outs[0] != outs[1]:
+        ctx.violation("hash_one differs between two processes", History(0, lines[:5]), impl.name)
+        return
+    if len(outs[0]) != n:
+        return   # harness without hashone support
+    cases = []
+    for l, src in zip(outs[0], lines):
+        t = l.split()      # HONE <stream hex|-> <fin> <fin2> <ref>
+        stream = bytes.fromhex(t[1]) if t[1] != "-" else b""
+        key = tuple(int(x, 16) for x in src.split()[1:5])
+        cases.append((64, key, stream))
+        ctx.evaluations += 1
+        ctx.distinct.add(hash(src))
+        if not (t[2] == t[3] == t[4]):
+            ctx.violation("hash_one: two builder instances / PortableHash over the recorded write stream disagree: %s" % l,
+                          History(0, [src]), impl.name)
+            return
+    spec = C.spec_run(cases)
+    for l, s, src in zip(outs[0], spec, lines):
+        if s.split()[1] != l.split()[2]:
+            ctx.violation("hash_one digest %s differs from Spec.HH64 %s over the recorded write stream" % (l.split()[2], s),
+                          History(0, [src]), impl.name)
+            return
+    ctx.count("hash_one values", n)
+
+
+OBSERVERS = ("ckpt", "finish", "debug", "flush")
+
+
+# C13  observers / clones
+def c13(ctx):
+    ctx.nontrivial_rule = ("pairs of histories: a random history over all x86 hasher types, and the same history with checkpoint / "
+                           "finish / Debug / flush calls and extra clones (finalised at once) inserted at random positions; oracle: the "
+                           "non-observer output lines are identical; plus clone-divergence histories (original and clone continued "
+                           "differently, each compared with a fresh hasher fed the same bytes); non-trivial = distinct script")
+    ok = proof_gate(ctx, "theories/Properties/C13.v",
+                    ["C13_observer_transparent", "C13_clone_is_same_value", "C13_registers_independent", "C13_reachable_ok"])
+    ensure_model(ctx)
+    seed_rng = Rng(ctx.seed).fork("C13")
+    base_tr = {}
+
+    def make(impl):
+        rng = seed_rng.fork("o")
+        ops = feed_ops_for(impl)
+        hists = []
+        hid = 0
+        for i in range(500 if ctx.tier == "quick" else 20000):
+            base = [l for l in random_history(rng, ops, blobs=(i % 3 == 0)) if l.split()[0] not in OBSERVERS]
+            hists.append(History(hid, base, {"base": True}))
+            withobs = []
+            live = set()
+            for l in base:
+                t = l.split()
+                for _ in range(rng.below(3)):
+                    if live:
+                        r = rng.choice(sorted(live))
+                        m = rng.below(5)
+                        if m < 4:
+                            withobs.append("%s %d" % (OBSERVERS[m] if (OBSERVERS[m] != "flush" or "write" in ops) else "ckpt", r))
+                        else:
+                            withobs += ["clone 77 %d" % r, "append 77 %s" % hexs(rng.bytes(5, 0)), "fin64 77"]
+                withobs.append(l)
+                if t[0] in ("new", "fnew", "default", "restore", "frestore", "restorefrom", "frestorefrom", "clone"):
+                    live.add(int(t[1]))
+                if t[0].startswith(("fin6", "fin1", "fin2", "hash")):
+                    live.discard(int(t[1]))
+            hists.append(History(hid + 1, withobs, {"base_id": hid, "base_lines": base}))
+            hid += 2
+        # clone divergence
+        for i in range(150 if ctx.tier == "quick" else 5000):
+            b = rng.choice(X86_BACKENDS)
+            key = G.rand_key(rng)
+            a, x, y = (G.rand_data(rng, rng.below(80)) for _ in range(3))
+            w = rng.choice(G.WIDTHS)
+            lines = [ctor(b, 0, key), "append 0 %s" % hexs(a), "clone 1 0", "append 0 %s" % hexs(x), "append 1 %s" % hexs(y),
+                     "fin%s 0" % w, "fin%s 1" % w,
+                     "new 2 P %s" % G.keystr(key), "hash%s 2 %s" % (w, hexs(a + x)), "new 3 P %s" % G.keystr(key), "hash%s 3 %s" % (w, hexs(a + y))]
+            hists.append(History(hid, lines, {"clone": True}))
+            hid += 1
+        return hists
+
+    def strip(h, il):
+        outs = [l for l in il if not l.startswith("ALLOC")]
+        res = []
+        skip77 = 0
+        for op, o in zip(h.lines, outs):
+            t = op.split()
+            if t[0] in OBSERVERS or (len(t) > 1 and t[1] == "77") or (t[0] == "clone" and t[1] == "77"):
+                continue
+            res.append(o)
+        return res
+
+    def oracle(h, il):
+        if has_panic(il):
+            return "panic"
+        if h.meta.get("base"):
+            base_tr[h.hid] = [l for l in il if not l.startswith("ALLOC")]
+            return None
+        if h.meta.get("clone"):
+            ds = digests(il)
+            if len(ds) == 4 and (ds[0] != ds[2] or ds[1] != ds[3]):
+                return "original/clone after divergent continuations: %s, expected %s" % (ds[:2], ds[2:])
+            return None
+        ref = base_tr.get(h.meta.get("base_id"))
+        if ref is None:
+            return None
+        got = strip(h, il)
+        if got != ref:
+            d = C.first_diff(got, ref)
+            return "observers changed a later result: %s" % (d,)
+        return None
+
+    keep = DIGEST + ("PANIC", "FAULT", "W", "FIN", "NONE", "CK", "TAG")
+    for name in ("dev", "release"):
+        impl = get_impl(ctx, name)
+        base_tr.clear()
+        hists = make(impl)
+        b = [h for h in hists if h.meta.get("base")]
+        rest = [h for h in hists if not h.meta.get("base")]
+        f1, m1, _ = run_dynamic(ctx, impl, b, oracle, keep)
+        f2, m2, _ = run_dynamic(ctx, impl, rest, oracle, keep)
+
+        def oracle_single(h, il, _impl=impl):
+            if has_panic(il):
+                return "panic"
+            if h.meta.get("clone") or "base_lines" not in h.meta:
+                return oracle(h, il) if h.meta.get("clone") else None
+            core = [l for l in h.lines if l.split()[0] not in OBSERVERS and " 77" not in l]
+            tr, _ = C.impl_run(_impl, [History(1, core)])
+            ref = [l for l in tr.get(1, []) if not l.startswith("ALLOC")]
+            if strip(h, il) != ref:
+                return "observers changed a later result"
+            return None
+        report(ctx, impl, f1 + f2, m1 + m2, oracle_single, keep, "observer transparency / clone independence")
+    proof_verdict(ctx, ok)
+
+
+# C14  checkpoint bytes canonical
+def c14(ctx):
+    ctx.nontrivial_rule = ("one history = the same key and bytes fed with two different chunkings to each of PortableHash, SseHash, AvxHash, "
+                           "HighwayHasher (8 hashers), checkpoint of each, then restore-and-checkpoint-again; oracle: all checkpoints "
+                           "byte-identical, idempotent, count field = len mod 32, bytes beyond the pending ones zero; "
+                           "non-trivial = distinct script with non-empty data")
+    ok = proof_gate(ctx, "theories/Properties/C14.v",
+                    ["C14_checkpoint_canonical", "C14_idempotent", "C14_layout", "C14_only_unabsorbed_bytes"])
+    ensure_model(ctx)
+    seed_rng = Rng(ctx.seed).fork("C14")
+
+    def make(impl):
+        rng = seed_rng.fork("c")
+        hists = []
+        lens = list(G.LENS_SMALL) + [rng.below(500) for _ in range(100 if ctx.tier == "quick" else 10000)]
+        for hid, n in enumerate(lens):
+            key = G.rand_key(rng)
+            d = rng.bytes(n, 1 if hid % 2 else 0)
+            lines = []
+            r = 0
+            for b in X86_BACKENDS:
+                for ch in (G.partition(rng, d, 2 + rng.below(4)), [d[:max(0, n - 9)], d[max(0, n - 9):]]):
+                    lines.append(ctor(b, r, key))
+                    lines += ["append %d %s" % (r, hexs(c)) for c in ch]
+                    lines += ["ckpt %d" % r, "%s %d %s %d" % (restore_op(b), r + 50, b, r), "ckpt %d" % (r + 50)]
+                    r += 1
+            hists.append(History(hid, lines, {"len": n, "nontrivial": n > 0}))
+        return hists
+
+    def oracle(h, il):
+        if has_panic(il):
+            return "panic"
+        cks = lines_of(il, ("CK",))
+        if len(cks) < 2 or len(cks) != sum(1 for l in h.lines if l.startswith("ckpt")):
+            return None
+        if not all_equal(cks):
+            return "checkpoints of hashers that consumed the same stream differ (%d distinct values)" % len(set(cks))
+        raw = bytes.fromhex(cks[0].split()[1])
+        cnt = int.from_bytes(raw[160:164], "little")
+        if cnt >= 32 or any(raw[128 + cnt:160]):
+            return "checkpoint is not canonical: count %d, non-zero bytes after the pending ones" % cnt
+        return None
+
+    keep = ("PANIC", "FAULT", "CK", "NONE")
+    multi_dynamic(ctx, ("dev", "release"), make, oracle, keep, "canonical checkpoint bytes", "C14")
+    proof_verdict(ctx, ok)
+
+
+# C15  isolation
+def c15(ctx):
+    ctx.nontrivial_rule = ("(a) k independent histories on disjoint registers interleaved at random into one history: each register's "
+                           "outputs must equal those of its isolated run; (b) the whole script run with 16 threads and with 1 thread: "
+                           "identical transcripts; (c) hashers from HighwayBuildHasher instances on many threads; non-trivial = distinct script")
+    ok = proof_gate(ctx, "theories/Properties/C15.v", ["C15_frame", "C15_outputs_local"])
+    ensure_model(ctx)
+    rng = Rng(ctx.seed).fork("C15")
+    iso = {}
+    hists = []
+    hid = 0
+    subs_of = {}
+    for i in range(300 if ctx.tier == "quick" else 10000):
+        k = 2 + rng.below(3)
+        subs = []
+        for j in range(k):
+            lines = random_history(rng, G.FEED_OPS_STD, nregs=1, maxops=8)
+            # rename registers into a private range
+            ren = []
+            for l in lines:
+                t = l.split()
+                for pos in (1, 2, 3):
+                    if pos < len(t) and t[pos].isdigit() and len(t[pos]) < 3 and not (t[0].startswith(("new", "fnew")) and pos > 1) \
+                            and not (t[0] in ("restore", "frestore") and pos > 1) and not (t[0] == "default" and pos > 1) \
+                            and not (t[0] in ("append", "write", "writeall", "iocopy", "hwrite") and pos > 1) and not (t[0].startswith("hash") and pos > 1) \
+                            and not (t[0] in ("restorefrom", "frestorefrom") and pos == 2):
+                        t[pos] = str(int(t[pos]) + 10 * (j + 1))
+                ren.append(" ".join(t))
+            subs.append(ren)
+            hists.append(History(hid, ren, {"iso": True}))
+            hid += 1
+        # random interleaving
+        idx = [0] * k
+        order = []
+        inter = []
+        while any(idx[j] < len(subs[j]) for j in range(k)):
+            j = rng.choice([j for j in range(k) if idx[j] < len(subs[j])])
+            inter.append(subs[j][idx[j]])
+            order.append(j)
+            idx[j] += 1
+        hists.append(History(hid, inter, {"inter": True, "order": order, "iso_ids": list(range(hid - k, hid))}))
+        hid += 1
+
+    def oracle(h, il):
+        if has_panic(il):
+            return "panic"
+        outs = [l for l in il if not l.startswith("ALLOC")]
+        if h.meta.get("iso"):
+            iso[h.hid] = outs
+            return None
+        if not h.meta.get("inter") or len(outs) != len(h.lines):
+            return None
+        per = {}
+        for j, o in zip(h.meta["order"], outs):
+            per.setdefault(j, []).append(o)
+        for j, iid in enumerate(h.meta["iso_ids"]):
+            if iid in iso and per.get(j, []) != iso[iid]:
+                return "interleaving with other hashers changed a hasher's outputs: %s vs isolated %s" % (per.get(j), iso[iid])
+        return None
+
+    keep = DIGEST + ("PANIC", "FAULT", "W", "FIN", "NONE", "CK", "TAG", "OK")
+    for name in ("dev", "release"):
+        impl = get_impl(ctx, name)
+        iso.clear()
+        a = [h for h in hists if h.meta.get("iso")]
+        b = [h for h in hists if h.meta.get("inter")]
+        f1, m1, tr1 = run_dynamic(ctx, impl, a, oracle, keep)
+        f2, m2, tr2 = run_dynamic(ctx, impl, b, oracle, keep)
+        report(ctx, impl, f1 + f2, m1 + m2, lambda h, il: None, keep, "isolation of hasher instances")
+        # threads: the same script, 16 threads vs 1
+        allh = a + b
+        t16, _ = C.impl_run(impl, allh, threads=16)
+        t1 = dict(tr1)
+        t1.update(tr2)
+        bad = [h for h in allh if t16.get(h.hid) != t1.get(h.hid)]
+        ctx.count("threaded histories[%s]" % name, len(allh))
+        if bad:
+            ctx.violation("running the histories on 16 threads changes a transcript (%d histories differ)" % len(bad), bad[0], impl.name,
+                          extra_lines=["1 thread:"] + t1.get(bad[0].hid, []) + ["16 threads:"] + t16.get(bad[0].hid, []))
+    facts_gate(ctx, "C15")
+    proof_verdict(ctx, ok)
+
+
+def facts_gate(ctx, pid):
+    try:
+        from . import facts
+    except ImportError:
+        return
+    facts.check(ctx, pid)
+
+
 def replay(pid, path):
     """Re-run a replay script on the implementation (dev and release) and on the model; print both."""
     lines = [l.rstrip("\n") for l in open(path)]
@@ -303,4 +1150,5 @@ def replay(pid, path):
     return 0
 
 
-PROPS = {"C01": c01, "C05": c05}
+PROPS = {"C01": c01, "C02": c02, "C05": c05, "C06": c06, "C07": c07, "C08": c08, "C09": c09,
+         "C11": c11, "C12": c12, "C13": c13, "C14": c14, "C15": c15}
